@@ -35,6 +35,7 @@ type hookProgram struct {
 	RetryAfter       string  `json:"retryAfter"`
 	NetErr           bool    `json:"netErr"`
 	OmitStatus       bool    `json:"omitStatus"`
+	CustomizeBody    string  `json:"customizeBody"` // answer of the customize hook (default: no related resources)
 }
 
 func (h *hookProgram) answer(url string, req J) (int, map[string]string, []byte, bool) {
@@ -46,6 +47,12 @@ func (h *hookProgram) answer(url string, req J) (int, map[string]string, []byte,
 		code = 200
 	}
 	hdr := map[string]string{}
+	if strings.HasSuffix(url, "/customize") {
+		if h.CustomizeBody != "" {
+			return 200, hdr, []byte(h.CustomizeBody), false
+		}
+		return 200, hdr, []byte(`{"relatedResources":[]}`), false
+	}
 	if h.RetryAfter != "" {
 		hdr["Retry-After"] = h.RetryAfter
 	}
@@ -312,6 +319,18 @@ func (w *cworld) freezeViews() {
 	}
 }
 
+// hookFunc: the scripted hook of a scenario, stamped with the API log position
+func (sc *scenario) hookFunc(w *cworld) vh.HookFunc {
+	return func(url string, hdr http.Header, req map[string]interface{}) (int, map[string]string, []byte, bool) {
+		code, h, body, ne := sc.Hook.answer(url, req)
+		if h == nil {
+			h = map[string]string{}
+		}
+		h["X-Verif-Seq"] = fmt.Sprint(len(w.srv.Log()))
+		return code, h, body, ne
+	}
+}
+
 func runScenario(sc *scenario) (*caseRec, error) {
 	w := newWorld()
 	defer w.close()
@@ -552,10 +571,10 @@ func coqCfg(s *ctlSpec) string {
 	for _, r := range simResources {
 		known = append(known, coqKid(kidSpec{APIVersion: r.APIVersion(), Resource: r.Resource, Kind: r.Kind, Namespaced: r.Namespaced}))
 	}
-	return fmt.Sprintf("(mkCfg %s %s %s %s %s true %s %s [%s] %s %s [%s] %s false %s %s)", vh.MustCoqString(s.Name),
+	return fmt.Sprintf("(mkCfg %s %s %s %s %s true %s %s [%s] %s %s [%s] %s %s %s %s)", vh.MustCoqString(s.Name),
 		vh.MustCoqString(s.ParentAPIVersion), vh.MustCoqString(s.ParentKind), vh.MustCoqString(s.ParentResource),
 		vh.CoqBool(s.ParentNamespaced), vh.CoqBool(s.GenSelector), coqSelector(s.CtlSelector),
-		strings.Join(kids, "; "), vh.CoqBool(!s.NoSync), vh.CoqBool(s.Finalize), strings.Join(known, "; "), vh.CoqBool(s.SSA), coqFieldPaths(s), coqChecks(s))
+		strings.Join(kids, "; "), vh.CoqBool(!s.NoSync), vh.CoqBool(s.Finalize), strings.Join(known, "; "), vh.CoqBool(s.SSA), vh.CoqBool(s.Customize), coqFieldPaths(s), coqChecks(s))
 }
 
 func coqFieldPaths(s *ctlSpec) string {
@@ -667,8 +686,8 @@ func coqRound(s *ctlSpec, r *roundRec) string {
 	for _, op := range r.Queue {
 		qs = append(qs, fmt.Sprintf("(%s, %s, %s)", vh.MustCoqString(op.Op), vh.MustCoqString(op.Key), vh.CoqZ(int64(op.Delay/time.Millisecond))))
 	}
-	return fmt.Sprintf("(mkRound (mkCache %s [%s]) [%s] %s [%s] %s)", parent, strings.Join(groups, "; "), strings.Join(evs, ";\n  "), res,
-		strings.Join(qs, "; "), vh.MustCoqString(parentKeyOf(r)))
+	return fmt.Sprintf("(mkRound (mkCache %s [%s]) [%s] %s [%s] %s %s)", parent, strings.Join(groups, "; "), strings.Join(evs, ";\n  "), res,
+		strings.Join(qs, "; "), vh.MustCoqString(parentKeyOf(r)), vh.MustCoqString(r.CacheMutated))
 }
 
 func parentKeyOf(r *roundRec) string { return r.Key }
